@@ -551,7 +551,7 @@ def check_C18(tier, seed):
                "NOT declared noexcept is run under single-fault enumeration over allocate, element ctor/assign/swap, iterator */++, generator and the allocator's default constructor: the fault must reach the caller "
                "-- a process that dies in std::terminate is the witness; tuple = (config, expression, documented value) for (1) and fault tuples for (2)")
     jobs = []
-    for cc, std in (("g++", "c++17"), ("g++", "c++20")) + ((("clang++", "c++20"), ("clang++", "c++17"), ("g++", "c++23")) if tier != "quick" else ()):
+    for cc, std in (("g++", "c++17"), ("g++", "c++20"), ("g++", "c++11"), ("g++", "c++14")) + ((("clang++", "c++20"), ("clang++", "c++17"), ("g++", "c++23"), ("clang++", "c++11"), ("clang++", "c++14")) if tier != "quick" else ()):
         jobs.append({"src": "traits.cpp", "cc": cc, "flags": ["-std=" + std, "-O0"], "args": [], "name": "traits/%s/%s" % (cc, std), "config_class": std,
                      "compile_failure_is_violation": True})
     run_simple_engines(rp, "C18", "traits", jobs)
@@ -986,6 +986,12 @@ def cx_generate(seed, nprog, steps, out_path, configs):
         checks.append('  bad += check_program<%s, %d, %d> (%d, "%s/N%d,%d", prog_%d, ct_%d);' % (T, N, M, k, T, N, M, k, k))
         if k < 2:
             samples.append("%s N=(%d,%d): %s" % (T, N, M, " ".join(st[:8])))
+    for j in range(4):
+        n = (0, 2, 4, 9)[j]
+        sd = rnd.randrange(1, 250)
+        lines.append("constexpr std::array<long, CONV_OBS> cv_%d = conv_scenario<%d> (%d);" % (j, n, sd))
+        checks.append("  bad += check_conv<%d> (%d, %d, cv_%d);" % (n, j, sd, j))
+        tuples.add("conversion-scenario|N%d" % n)
     lines += ["", "int main ()", "{", "  int bad = 0;"] + checks
     lines += ['  std::printf ("{\\"type\\":\\"cx\\",\\"programs\\":%d,\\"steps\\":%d,\\"bad\\":%%d}\\n", bad);' % (nprog, steps),
               '  std::printf ("{\\"type\\":\\"done\\",\\"chunks\\":1,\\"deaths\\":0}\\n");', "  return 0;", "}"]
